@@ -5,6 +5,7 @@ package main
 import (
 	"fmt"
 	"math"
+	"strings"
 
 	ad "github.com/pbenner/autodiff"
 	"verif/mc/vf"
@@ -23,6 +24,112 @@ type libRT struct {
 	makeVec  func(e []ad.MagicScalar) ad.ConstVector
 	makeMat  func(e []ad.MagicScalar, rows, cols int) ad.ConstMatrix
 	asMagicV func(e []ad.MagicScalar) ad.MagicVector
+	// concrete: call the upper-case concrete twin of the named operation if destination, operands
+	// and scratch temporary all have the receiver's concrete type; false: not applicable
+	concrete func(name string, d ad.Scalar, a, b ad.ConstScalar, scratch func() ad.MagicScalar) bool
+	// read-only operands W_k and expected products W_k*W_k of the overwrite round, see overwriteRound
+	owCache *[maxN + 1][3][2][]*owEntry
+	owObjs  []liveObj
+	owExp   []*owEntry
+}
+
+// concScalar: the concrete entry points of the scalar type T (= *Real64, *Real32).
+type concScalar[T any] interface {
+	ad.MagicScalar
+	MIN(a, b T) ad.Scalar
+	MAX(a, b T) ad.Scalar
+	ABS(a T) ad.Scalar
+	NEG(a T) T
+	ADD(a, b T) T
+	SUB(a, b T) T
+	MUL(a, b T) T
+	DIV(a, b T) T
+	POW(a, k T) T
+	LOGADD(a, b, t T) T
+	LOGSUB(a, b, t T) T
+	SQRT(a T) T
+	EXP(a T) T
+	LOG(a T) T
+	LOG1P(a T) T
+}
+
+// concreteTwin: operations of the alphabet that have an upper-case concrete entry point.
+var concreteTwin = map[string]bool{"Neg": true, "Abs": true, "Exp": true, "Log": true, "Log1p": true, "Sqrt": true,
+	"Add": true, "Sub": true, "Mul": true, "Div": true, "Pow": true, "Min": true, "Max": true, "LogAdd": true, "LogSub": true}
+
+func concreteCall[T concScalar[T]](name string, d ad.Scalar, a, b ad.ConstScalar, scratch func() ad.MagicScalar) bool {
+	dd, ok := d.(T)
+	if !ok {
+		return false
+	}
+	aa, ok := a.(T)
+	if !ok {
+		return false
+	}
+	var bb T
+	switch name {
+	case "Add", "Sub", "Mul", "Div", "Pow", "Min", "Max", "LogAdd", "LogSub":
+		if bb, ok = b.(T); !ok {
+			return false
+		}
+	}
+	switch name {
+	case "Neg":
+		dd.NEG(aa)
+	case "Abs":
+		dd.ABS(aa)
+	case "Exp":
+		dd.EXP(aa)
+	case "Log":
+		dd.LOG(aa)
+	case "Log1p":
+		dd.LOG1P(aa)
+	case "Sqrt":
+		dd.SQRT(aa)
+	case "Add":
+		dd.ADD(aa, bb)
+	case "Sub":
+		dd.SUB(aa, bb)
+	case "Mul":
+		dd.MUL(aa, bb)
+	case "Div":
+		dd.DIV(aa, bb)
+	case "Pow":
+		dd.POW(aa, bb)
+	case "Min":
+		dd.MIN(aa, bb)
+	case "Max":
+		dd.MAX(aa, bb)
+	case "LogAdd", "LogSub":
+		t, ok := scratch().(T)
+		if !ok {
+			panic("concreteCall: scratch temporary of another type")
+		}
+		if name == "LogAdd" {
+			dd.LOGADD(aa, bb, t)
+		} else {
+			dd.LOGSUB(aa, bb, t)
+		}
+	default:
+		return false
+	}
+	return true
+}
+
+// concreteApplicable: some instruction of the program would run through a concrete entry point.
+func concreteApplicable(p *Program) bool {
+	typed := func(o Operand) bool { return o.K == 'V' || o.K == 'R' || o.K == 'C' }
+	for i := range p.Ins {
+		in := &p.Ins[i]
+		o := ops[in.Op]
+		if !concreteTwin[o.Name] {
+			continue
+		}
+		if typed(in.A) && (o.Kind == Unary || typed(in.B)) {
+			return true
+		}
+	}
+	return false
 }
 
 var rtReal64 = &libRT{
@@ -30,6 +137,7 @@ var rtReal64 = &libRT{
 	elemType: ad.Real64Type,
 	newMagic: func(v float64) ad.MagicScalar { return ad.NewReal64(v) },
 	round:    func(v float64) float64 { return v },
+	concrete: concreteCall[*ad.Real64],
 	makeVec: func(e []ad.MagicScalar) ad.ConstVector {
 		v := make(ad.DenseReal64Vector, len(e))
 		for i := range e {
@@ -58,6 +166,7 @@ var rtReal32 = &libRT{
 	elemType: ad.Real32Type,
 	newMagic: func(v float64) ad.MagicScalar { return ad.NewReal32(float32(v)) },
 	round:    func(v float64) float64 { return float64(float32(v)) },
+	concrete: concreteCall[*ad.Real32],
 	makeVec: func(e []ad.MagicScalar) ad.ConstVector {
 		v := make(ad.DenseReal32Vector, len(e))
 		for i := range e {
@@ -179,7 +288,7 @@ func (rt *libRT) buildHist(h *VarHist) []ad.MagicScalar {
 		case h.Form == "b":
 			a, b = other, mv[i]
 		}
-		rt.applyScalar(o, mv[i], a, b, n, 0)
+		rt.applyScalar(o, mv[i], a, b, &callEnv{n: n})
 	}
 	return mv
 }
@@ -208,12 +317,58 @@ type runOut struct {
 	regs     []ad.MagicScalar
 	panicAt  int // -1: none
 	panicMsg string
+	// the objects the program reads that must come out of it unchanged: the input variables (nil
+	// when supplied from outside) and the constant-valued magic scalars, with the value read back
+	// when they were handed to the program; dead: objects overwritten by an in-place instruction
+	vars      []ad.MagicScalar
+	varVal    [maxN]float64
+	consts    []ad.MagicScalar
+	constVal  []float64
+	dead      [maxIns]ad.MagicScalar // at most one per instruction
+	nDead     int
+	scratch   []ad.MagicScalar // scratch temporaries handed to the library
+	nConcrete int              // instructions executed through a concrete entry point
+}
+
+const maxIns = 4 // longest program of the enumeration: 3 instructions
+
+func (out *runOut) isDead(o ad.MagicScalar) bool {
+	for _, d := range out.dead[:out.nDead] {
+		if d == o {
+			return true
+		}
+	}
+	return false
+}
+
+// callEnv: what an instruction call needs besides its operands.
+type callEnv struct {
+	n, pollute int
+	concrete   bool              // through the concrete twin wherever destination and operands have the receiver's type
+	scratch    *[]ad.MagicScalar // records the scratch temporaries (nil: not recorded)
+	nConcrete  int
+}
+
+func (rt *libRT) scratchTemp(env *callEnv, salt float64) ad.MagicScalar {
+	t := rt.temp(env.n, env.pollute, salt)
+	if env.scratch != nil {
+		*env.scratch = append(*env.scratch, t)
+	}
+	return t
 }
 
 // run executes the program. vars may be supplied from outside (Matrix.Hessian/Jacobian
 // helpers activate their own clones); otherwise they are created and activated here.
-func (rt *libRT) run(p *Program, cs *Case, ext []ad.ConstScalar) (out runOut) {
+func (rt *libRT) run(p *Program, cs *Case, ext []ad.ConstScalar) runOut {
+	return rt.runHook(p, cs, ext, nil)
+}
+
+// runHook: after(k, out) is called after instruction k has completed.
+func (rt *libRT) runHook(p *Program, cs *Case, ext []ad.ConstScalar, after func(k int, out *runOut)) (out runOut) {
 	n := p.N
+	if len(p.Ins) > maxIns || n > maxN {
+		panic("run: program longer than maxIns instructions or over more than maxN variables")
+	}
 	out.panicAt = -1
 	vars := ext
 	if vars == nil {
@@ -240,10 +395,16 @@ func (rt *libRT) run(p *Program, cs *Case, ext []ad.ConstScalar) (out runOut) {
 		if err := rt.activate(cs.Act, cs.Order, mv); err != nil {
 			panic(err)
 		}
+		out.vars = mv
+		for i := range mv {
+			out.varVal[i] = mv[i].GetFloat64()
+		}
 	}
 	out.regs = make([]ad.MagicScalar, 0, len(p.Ins))
 	cur := 0
+	env := &callEnv{n: n, pollute: cs.Pollute, concrete: cs.Entry == "concrete", scratch: &out.scratch}
 	defer func() {
+		out.nConcrete = env.nConcrete
 		if r := recover(); r != nil {
 			out.panicAt = cur
 			out.panicMsg = fmt.Sprint(r)
@@ -256,6 +417,11 @@ func (rt *libRT) run(p *Program, cs *Case, ext []ad.ConstScalar) (out runOut) {
 	if len(p.Ins) > 1 {
 		polC = 0
 	}
+	constant := func(c ad.MagicScalar) ad.MagicScalar {
+		out.consts = append(out.consts, c)
+		out.constVal = append(out.constVal, c.GetFloat64())
+		return c
+	}
 	get := func(o Operand) ad.ConstScalar {
 		switch o.K {
 		case 'V':
@@ -267,7 +433,7 @@ func (rt *libRT) run(p *Program, cs *Case, ext []ad.ConstScalar) (out runOut) {
 		case 'P':
 			return ad.NewFloat64(o.V)
 		case 'C':
-			return rt.constObj(o.V, n, polC)
+			return constant(rt.constObj(o.V, n, polC))
 		}
 		panic("bad operand kind")
 	}
@@ -280,7 +446,7 @@ func (rt *libRT) run(p *Program, cs *Case, ext []ad.ConstScalar) (out runOut) {
 			case 'R':
 				e[i] = out.regs[o.I]
 			default:
-				e[i] = rt.constObj(o.V, n, polC)
+				e[i] = constant(rt.constObj(o.V, n, polC))
 			}
 		}
 		return e
@@ -302,7 +468,7 @@ func (rt *libRT) run(p *Program, cs *Case, ext []ad.ConstScalar) (out runOut) {
 				// one operand: the receiver takes order and number of variables from it and nothing is
 				// re-allocated when it is the operand itself; on a reused object of order >= 1 the
 				// operation would only form f'(c) * 0
-				a = rt.newMagic(in.A.V)
+				a = constant(rt.newMagic(in.A.V))
 			} else {
 				a = get(in.A)
 			}
@@ -310,14 +476,14 @@ func (rt *libRT) run(p *Program, cs *Case, ext []ad.ConstScalar) (out runOut) {
 			a = get(in.A)
 			switch {
 			case alias == "ab" && o.Name == "Pow" && in.A.K == 'C':
-				a = rt.newMagic(in.A.V) // base, exponent and destination one object: see below
+				a = constant(rt.newMagic(in.A.V)) // base, exponent and destination one object: see below
 				b = a
 			case alias == "ab":
 				b = a
 			case o.Name == "Pow" && in.B.K == 'C':
 				// Pow decides between x^const and x^y by the exponent's order: a constant exponent
 				// is a constant by the library's own definition only in a scalar of order 0
-				b = rt.newMagic(in.B.V)
+				b = constant(rt.newMagic(in.B.V))
 			default:
 				b = get(in.B)
 			}
@@ -331,6 +497,10 @@ func (rt *libRT) run(p *Program, cs *Case, ext []ad.ConstScalar) (out runOut) {
 		default:
 			dst = rt.temp(n, cs.Pollute, float64(i))
 		}
+		if alias != "" {
+			out.dead[out.nDead] = dst
+			out.nDead++
+		}
 		if t, ok := in.target(); ok && alias != "" && t.K == 'R' {
 			// the object of an earlier register is about to be overwritten: keep a copy of that
 			// register's result for the comparison (every register is compared, in order, so a wrong
@@ -340,7 +510,7 @@ func (rt *libRT) run(p *Program, cs *Case, ext []ad.ConstScalar) (out runOut) {
 		var d ad.Scalar = dst
 		switch o.Kind {
 		case Unary, Binary:
-			rt.applyScalar(o, d, a, b, n, cs.Pollute)
+			rt.applyScalar(o, d, a, b, env)
 		case Reduce:
 			switch o.Name {
 			case "Vmean":
@@ -365,21 +535,30 @@ func (rt *libRT) run(p *Program, cs *Case, ext []ad.ConstScalar) (out runOut) {
 				d.Mnorm(rt.makeMat(elems(in.Vec), in.Rows, len(in.Vec)/in.Rows))
 			case "SmoothMax":
 				d.SmoothMax(rt.makeVec(elems(in.Vec)), ad.ConstFloat64(o.Par),
-					[2]ad.Scalar{rt.temp(n, cs.Pollute, 0.5), rt.temp(n, cs.Pollute, 1.5)})
+					[2]ad.Scalar{rt.scratchTemp(env, 0.5), rt.scratchTemp(env, 1.5)})
 			case "LogSmoothMax":
 				d.LogSmoothMax(rt.makeVec(elems(in.Vec)), ad.ConstFloat64(o.Par),
-					[3]ad.Scalar{rt.temp(n, cs.Pollute, 0.5), rt.temp(n, cs.Pollute, 1.5), rt.temp(n, cs.Pollute, 2.5)})
+					[3]ad.Scalar{rt.scratchTemp(env, 0.5), rt.scratchTemp(env, 1.5), rt.scratchTemp(env, 2.5)})
 			default:
 				panic("run: unknown reduction " + o.Name)
 			}
 		}
 		out.regs = append(out.regs, dst)
+		if after != nil {
+			after(i, &out)
+		}
 	}
 	return out
 }
 
 // applyScalar: d := o(a[, b]); scratch temporaries as temp(n, pollute, .).
-func (rt *libRT) applyScalar(o *OpDef, d ad.Scalar, a, b ad.ConstScalar, n, pollute int) {
+func (rt *libRT) applyScalar(o *OpDef, d ad.Scalar, a, b ad.ConstScalar, env *callEnv) {
+	if env.concrete && concreteTwin[o.Name] {
+		if rt.concrete(o.Name, d, a, b, func() ad.MagicScalar { return rt.scratchTemp(env, 0.5) }) {
+			env.nConcrete++
+			return
+		}
+	}
 	switch o.Kind {
 	case Unary:
 		switch o.Name {
@@ -412,7 +591,7 @@ func (rt *libRT) applyScalar(o *OpDef, d ad.Scalar, a, b ad.ConstScalar, n, poll
 		case "Logistic":
 			d.Logistic(a)
 		case "Sigmoid":
-			d.Sigmoid(a, rt.temp(n, pollute, 0.5))
+			d.Sigmoid(a, rt.scratchTemp(env, 0.5))
 		case "Log1pExp":
 			d.Log1pExp(a)
 		case "Erf":
@@ -453,9 +632,9 @@ func (rt *libRT) applyScalar(o *OpDef, d ad.Scalar, a, b ad.ConstScalar, n, poll
 		case "Max":
 			d.Max(a, b)
 		case "LogAdd":
-			d.LogAdd(a, b, rt.temp(n, pollute, 0.5))
+			d.LogAdd(a, b, rt.scratchTemp(env, 0.5))
 		case "LogSub":
-			d.LogSub(a, b, rt.temp(n, pollute, 0.5))
+			d.LogSub(a, b, rt.scratchTemp(env, 0.5))
 		default:
 			panic("run: unknown binary " + o.Name)
 		}
@@ -741,6 +920,288 @@ func compareRegs(m *Model, p *Program, cs *Case, out *runOut, jets []Jet) (fails
 		st.status = "panic-expected"
 	}
 	return
+}
+
+// ---- objects that must survive the program unchanged ------------------------------------------------
+
+// liveMismatch: the first input variable that is not overwritten by an in-place instruction and no
+// longer holds its seed jet (value as activated, d/dx_i = 1, every other slot exactly 0), or the
+// first constant-valued magic scalar that no longer holds its value with all derivative slots
+// exactly 0. Exact comparison: no operation may write to an object that is only its operand.
+func liveMismatch(out *runOut, n int) (role, name, comp, msg string) {
+	vi, ci := -1, -1
+	describe := func() {
+		if vi >= 0 {
+			role, name = "input-variable", fmt.Sprintf("V%d", vi)
+		} else if ci >= 0 {
+			role, name = "constant-operand", fmt.Sprintf("the constant-valued magic scalar %v", out.constVal[ci])
+		}
+	}
+	defer func() {
+		if r := recover(); r != nil {
+			describe()
+			comp, msg = "getter-panic", fmt.Sprintf("reading %s after the program panicked: %v", name, r)
+		}
+	}()
+	chk := func(obj ad.MagicScalar, val float64, seed int) (string, string) {
+		if got := obj.GetFloat64(); !sameBits(got, val) && !(math.IsNaN(got) && math.IsNaN(val)) {
+			return "value", fmt.Sprintf("value %v, was %v", got, val)
+		}
+		for i := 0; i < n; i++ {
+			want := 0.0
+			if i == seed {
+				want = 1
+			}
+			if g := obj.GetDerivative(i); g != want {
+				return nanTag("d1", g), fmt.Sprintf("d/dx%d = %v, was %v", i, g, want)
+			}
+		}
+		if obj.GetOrder() < 2 {
+			return "", "" // no second derivatives are stored
+		}
+		for i := 0; i < n; i++ {
+			for l := 0; l < n; l++ {
+				if h := obj.GetHessian(i, l); h != 0 {
+					return nanTag("d2", h), fmt.Sprintf("H[%d][%d] = %v, was 0", i, l, h)
+				}
+			}
+		}
+		return "", ""
+	}
+	for i, v := range out.vars {
+		if out.nDead > 0 && out.isDead(v) {
+			continue
+		}
+		vi = i
+		if comp, msg = chk(v, out.varVal[i], i); comp != "" {
+			describe()
+			return
+		}
+	}
+	vi = -1
+	for i, c := range out.consts {
+		if out.nDead > 0 && out.isDead(c) {
+			continue
+		}
+		ci = i
+		if comp, msg = chk(c, out.constVal[i], -1); comp != "" {
+			describe()
+			return
+		}
+	}
+	return "", "", "", ""
+}
+
+// checkLive: every input variable and every constant-valued magic scalar that no in-place
+// instruction overwrote still holds what it held when the program started. On a mismatch the
+// program is run again with the same check after every instruction, to name the instruction
+// after which the object changed.
+func (rt *libRT) checkLive(p *Program, cs *Case, out *runOut) (fails []failure) {
+	if out.panicAt >= 0 {
+		return nil
+	}
+	role, name, comp, msg := liveMismatch(out, p.N)
+	if comp == "" {
+		return nil
+	}
+	at := -1
+	rt.runHook(p, cs, nil, func(k int, o *runOut) {
+		if at < 0 {
+			if _, _, c, _ := liveMismatch(o, p.N); c != "" {
+				at = k
+			}
+		}
+	})
+	by := "?"
+	if at >= 0 {
+		by = family(ops[p.Ins[at].Op])
+	} else {
+		at = len(p.Ins) - 1
+	}
+	key := fmt.Sprintf("operand-modified|%s|by:%s|%s|%s", role, by, comp, cs.Type)
+	return []failure{{key, fmt.Sprintf("[%v] at x=%v order=%d pollute=%d entry=%q: %s, which is only read by the program, changed (first seen after R%d): %s", p, cs.X, cs.Order, cs.Pollute, cs.Entry, name, at, msg), at}}
+}
+
+// ---- overwrite round ----------------------------------------------------------------------------
+
+// owEntry: the read-only operand W_k of the overwrite round and the product W_k*W_k as the
+// library computes it into a new object.
+type owEntry struct {
+	w   ad.MagicScalar
+	val float64
+	g   [maxN]float64
+	h   [maxN][maxN]float64
+}
+
+func (rt *libRT) owMul(entry string, x, w ad.MagicScalar) {
+	if entry == "concrete" {
+		if !rt.concrete("Mul", x, w, w, nil) {
+			panic("overwrite round: concrete MUL not applicable")
+		}
+		return
+	}
+	x.Mul(w, w)
+}
+
+func (rt *libRT) owGet(n, order, k int, entry string) *owEntry {
+	ei := 0
+	if entry != "" {
+		ei = 1
+	}
+	if rt.owCache == nil {
+		rt.owCache = &[maxN + 1][3][2][]*owEntry{}
+	}
+	tab := &rt.owCache[n][order][ei]
+	for len(*tab) <= k {
+		*tab = append(*tab, nil)
+	}
+	if e := (*tab)[k]; e != nil {
+		return e
+	}
+	e := &owEntry{w: rt.used(1.5+0.25*float64(k), n, order, 0.5*float64(k))}
+	x := rt.newMagic(0)
+	rt.owMul(entry, x, e.w)
+	e.val = x.GetFloat64()
+	for i := 0; i < n; i++ {
+		e.g[i] = x.GetDerivative(i)
+		for l := 0; l < n; l++ {
+			e.h[i][l] = x.GetHessian(i, l)
+		}
+	}
+	(*tab)[k] = e
+	return e
+}
+
+// liveObj: kind 'R' result register idx, 'V' input variable idx, 'C' constant-valued magic scalar
+// idx (of runOut.consts), 'T' scratch temporary idx.
+type liveObj struct {
+	obj  ad.MagicScalar
+	kind byte
+	idx  int
+}
+
+func (l liveObj) role(p *Program) string {
+	switch l.kind {
+	case 'R':
+		return "result:" + family(ops[p.Ins[l.idx].Op])
+	case 'V':
+		return "input-variable"
+	case 'C':
+		return "constant-operand"
+	}
+	return "scratch-temporary"
+}
+
+func (l liveObj) name(out *runOut) string {
+	switch l.kind {
+	case 'R':
+		return fmt.Sprintf("R%d", l.idx)
+	case 'V':
+		return fmt.Sprintf("V%d", l.idx)
+	case 'C':
+		return fmt.Sprintf("constant %v", out.constVal[l.idx])
+	}
+	return fmt.Sprintf("scratch temporary %d", l.idx)
+}
+
+// liveObjects: the distinct objects that exist when the program has finished: result registers
+// (a variable or constant overwritten in place is the register it holds), input variables,
+// constant-valued magic scalars, scratch temporaries.
+func liveObjects(out *runOut, objs []liveObj) []liveObj {
+	objs = objs[:0]
+	add := func(o ad.MagicScalar, kind byte, idx int) {
+		for i := range objs {
+			if objs[i].obj == o {
+				return
+			}
+		}
+		objs = append(objs, liveObj{o, kind, idx})
+	}
+	for k := len(out.regs) - 1; k >= 0; k-- {
+		add(out.regs[k], 'R', k)
+	}
+	for i, v := range out.vars {
+		add(v, 'V', i)
+	}
+	for i, c := range out.consts {
+		add(c, 'C', i)
+	}
+	for i, t := range out.scratch {
+		add(t, 'T', i)
+	}
+	return objs
+}
+
+// overwriteRound ("temporaries reused" after the program): every object that is alive when the
+// program has finished is overwritten in turn by X_k := W_k*W_k through the entry points of the
+// case (Mul / MUL), W_k distinct scalars of the program's order and number of variables.
+// Afterwards every X_k must hold, bit for bit, the product the library computes from W_k into a
+// new object: an object whose content follows a write to ANOTHER object shares state with it.
+func (rt *libRT) overwriteRound(p *Program, cs *Case, out *runOut) (fails []failure) {
+	if out.panicAt >= 0 {
+		return nil
+	}
+	n := p.N
+	rt.owObjs = liveObjects(out, rt.owObjs)
+	objs := rt.owObjs
+	at := len(p.Ins) - 1
+	defer func() {
+		if r := recover(); r != nil {
+			rt.owCache = nil
+			fails = append(fails, failure{fmt.Sprintf("overwrite-round|*|panic|%s", cs.Type), fmt.Sprintf("[%v] at x=%v order=%d entry=%q: overwriting the live objects by X:=W*W panicked: %v", p, cs.X, cs.Order, cs.Entry, r), at})
+		}
+	}()
+	rt.owExp = rt.owExp[:0]
+	for k := range objs {
+		rt.owExp = append(rt.owExp, rt.owGet(n, cs.Order, k, cs.Entry))
+	}
+	exp := rt.owExp
+	for k := range objs {
+		rt.owMul(cs.Entry, objs[k].obj, exp[k].w)
+	}
+	eq := func(a, b float64) bool { return sameBits(a, b) || (math.IsNaN(a) && math.IsNaN(b)) }
+	for k := range objs {
+		x, e := objs[k].obj, exp[k]
+		comp, got, want := "", 0.0, 0.0
+		slot := func(j int) float64 { return 0 }
+		if v := x.GetFloat64(); !eq(v, e.val) {
+			comp, got, want = "value", v, e.val
+			slot = func(j int) float64 { return exp[j].val }
+		}
+		for i := 0; i < n && comp == ""; i++ {
+			if g := x.GetDerivative(i); !eq(g, e.g[i]) {
+				i := i
+				comp, got, want = "d1", g, e.g[i]
+				slot = func(j int) float64 { return exp[j].g[i] }
+			}
+		}
+		for i := 0; i < n && comp == ""; i++ {
+			for l := 0; l < n && comp == ""; l++ {
+				if h := x.GetHessian(i, l); !eq(h, e.h[i][l]) {
+					i, l := i, l
+					comp, got, want = "d2", h, e.h[i][l]
+					slot = func(j int) float64 { return exp[j].h[i][l] }
+				}
+			}
+		}
+		if comp == "" {
+			continue
+		}
+		other, otherName := "unidentified", "an object that could not be identified"
+		for j := range objs {
+			if j != k && eq(slot(j), got) {
+				other, otherName = objs[j].role(p), objs[j].name(out)
+			}
+		}
+		rt.owCache = nil
+		if i := strings.IndexByte(other, ':'); i >= 0 {
+			other = other[:i] // the partner's producing operation does not matter
+		}
+		key := fmt.Sprintf("shared-state|%s|with:%s|%s|%s", objs[k].role(p), other, comp, cs.Type)
+		return []failure{{key, fmt.Sprintf("[%v] at x=%v order=%d entry=%q: after the program every live object was overwritten in turn by X:=W*W; %s (%s) then holds %s %v instead of %v: it follows the write to %s (%s)",
+			p, cs.X, cs.Order, cs.Entry, objs[k].name(out), objs[k].role(p), comp, got, want, otherName, other), at}}
+	}
+	return nil
 }
 
 // checkNonsmooth: what can be demanded of a register that sits on a kink (Abs at 0, Min/Max tie)
